@@ -668,6 +668,10 @@ func TestC17(t *testing.T) {
 			r.Require(k, 20)
 		}
 	}
+	wiring(r)
+	if os.Getenv("VERIF_RACE") != "1" && r.Counter("wiring_skipped_cannot_listen_on_distinct_loopback_ips")+r.Counter("wiring_skipped_observers_do_not_have_distinct_ips") == 0 && !r.Replaying() {
+		r.Require("wiring_activated_by_real_identify", 1)
+	}
 	r.Require("histories_with_concurrent_readers", 20)
 	r.Require("closes_placed_inside_a_report_being_processed", 100)
 	r.Require("concurrent_reads_judged", 1000)
